@@ -138,10 +138,9 @@ def run(ctx):
     corr_bad = []
     orbit = None
     for pkg, name, rc, log, out in runs:
-        if rc != 0:
-            ctx.oblige("harness-runs:" + pkg, False, log[-1500:])
-            continue
-        ctx.oblige("harness-runs:" + pkg, True)
+        ctx.oblige("harness-runs:" + pkg, rc == 0, log[-1500:] if rc != 0 else "")
+        if not os.path.exists(os.path.join(out, "summary.json")):
+            continue   # (a harness that died still flushes what it had: its outputs are searched for a concrete failing input)
         summ = json.load(open(os.path.join(out, "summary.json")))
         for ep, c in summ["counts"].items():
             ep_counts.setdefault(ep, Counter()).update(c)
